@@ -77,3 +77,10 @@ func VerifParseClientHello(data []byte) (random, sessionId, keyShare []byte, sta
 	}
 	return ch.random, ch.sessionId, ks, "ok"
 }
+
+// VerifResetReplay empties the replay cache (each variant of a bit-flip sweep must be judged on its own).
+func VerifResetReplay(sta *State) {
+	sta.usedRandomM.Lock()
+	sta.UsedRandom = map[[32]byte]int64{}
+	sta.usedRandomM.Unlock()
+}
